@@ -193,12 +193,24 @@ def ioutStr : IOut → String
 
 def itail (st : IState) : String := s!" | {st.cache.size} {st.cache.trigCount}"
 
+/-- a settings value: `-` = key absent (`some none`), a number (`some (some n)`), anything else unparsable -/
+def optNat (w : String) : Option (Option Nat) := if w == "-" then some none else w.toNat?.map some
+
 def ifaceLine (ist : Option IState) (w : List String) : Option IState × String :=
   match w, ist with
-  | ["inew", limit], _ =>
-    match limit.toNat? with
-    | some l => let st : IState := { cache := State.init l none }; (some st, "ok" ++ itail st)
+  | ["inew", "thread", limit], _ =>
+    -- the cache is built by cache_pool from the settings: configured cache.limit ("-" = absent) -> effective limit
+    match optNat limit with
+    | some l =>
+      let st : IState := { cache := State.init (Gen.poolThreadLimit l) none }
+      (some st, "ok" ++ itail st)
     | none => (ist, "bad-op")
+  | ["inew", "process", limit, mem], _ =>
+    match optNat limit, optNat mem with
+    | some l, some m =>
+      let st : IState := { cache := State.init (Gen.poolProcessLimit l m) (some (Gen.processSizeLimit (Gen.poolProcessBytes m))) }
+      (some st, "ok" ++ itail st)
+    | _, _ => (ist, "bad-op")
   | ["ipage", now, key, timeout, body, ops], some st =>
     match now.toInt?, parseHex key, timeout.toInt?, parseHex body with
     | some now, some key, some tmo, some body =>
@@ -223,8 +235,14 @@ def ifaceLine (ist : Option IState) (w : List String) : Option IState × String 
     | none => (ist, "bad-op")
   | _, none => (ist, "bad-op")
 
+/-- `@<i> <line>`: which worker process executes a line is irrelevant for a process-shared cache; `fork n` changes nothing -/
+def stripWorker (w : List String) : List String :=
+  match w with
+  | a :: rest => if a.startsWith "@" then rest else if a == "fork" then ["stats"] else w
+  | [] => []
+
 def stepLine (st : DState) (line : String) : DState × String :=
-  match words line with
+  match stripWorker (words line) with
   | "J" :: rest => judgeLine false st rest
   | "JL" :: rest =>
     -- limit clause only (C08 under memory pressure): every other verdict of the C07 judge is ignored
